@@ -452,7 +452,18 @@ structure PathInfo where
 
 def prod (l : List Nat) : Nat := l.foldl (· * ·) 1
 
-/-- `np.asanyarray(laser.data)` as `np.savez` does it -/
+/-- a dtype string in native byte order (the check runs on little-endian machines: `'>f8'` becomes
+`'<f8'`; `'<'`, `'|'` and `'='` forms are native) -/
+def nativeDtype : Str → Str
+  | '>' :: r => '<' :: r
+  | d => d
+
+def isNativeDtype (d : Str) : Bool := d.head? != some '>'
+
+/-- `np.asanyarray(laser.data)` as `np.savez` does it.  The layer list of an SRR laser is stacked into
+ONE new array: NumPy builds it in native byte order, so a `'>f8'` field of the layers is stored (and
+loaded) as `'<f8'` — same values, other dtype (known finding `C01-srr-byteorder`; `Laser.ok` asks for
+native field dtypes in SRR lasers).  The single array of a `Laser` is written as it is. -/
 def dataToArray (L : Laser) : Except Err DataArr :=
   match L.kind, L.layers with
   | .laser, [l] => pure ⟨L.fields, l.shape, l.cells⟩
@@ -460,7 +471,7 @@ def dataToArray (L : Laser) : Except Err DataArr :=
   | .srr, [] => throw .typeError
   | .srr, l :: ls =>
     if ls.all (·.shape == l.shape) then
-      pure ⟨L.fields, (ls.length + 1) :: l.shape, (l :: ls).flatMap (·.cells)⟩
+      pure ⟨L.fields.map fun f => (f.1, nativeDtype f.2), (ls.length + 1) :: l.shape, (l :: ls).flatMap (·.cells)⟩
     else throw .valueError       -- inhomogeneous shape
 
 /-- `n` consecutive chunks of `k` -/
@@ -675,7 +686,8 @@ fields makes a `Laser` that `save` cannot write), element names without trailing
 construction of a structured dtype), exactly one calibration per element **in any dict order** (the
 keys of the calibration dict are distinct, each is an element, each element is a key), every
 calibration `Cal.ok`, configuration class matching the laser class and `Config.ok`, one layer or ≥ 2
-layers of equal shape, packed info not ending in NUL -/
+layers of equal shape, native byte order of every field of an SRR laser (the stacked array is native:
+known finding `C01-srr-byteorder`), packed info not ending in NUL -/
 def Laser.ok (L : Laser) : Bool :=
   !L.fields.isEmpty
   && (keys L.fields).all noNulEnd && decide (keys L.fields).Nodup
@@ -684,6 +696,7 @@ def Laser.ok (L : Laser) : Bool :=
   && L.cal.all (·.2.ok)
   && (L.config.isSRR == (L.kind == .srr)) && L.config.ok
   && layersOk L.kind L.layers
+  && (L.kind != .srr || L.fields.all fun f => isNativeDtype f.2)
   && noNulEnd (packInfoRaw L.info)
 
 /-- the version string `save` writes: digits and dots, not older than 0.8.0 -/
